@@ -201,6 +201,15 @@ Theorem C37_inline_merge_every_interleaving : forall (A : Type) (a b out : list 
 Proof. intros A. exact (@merge_complete A). Qed.
 Print Assumptions C37_inline_merge_every_interleaving.
 
+(* keyed observation hooks: every pending item of every key (resp. every key's front item) can
+   be the next one observed *)
+Theorem C37_top_keyed_every_item : forall (A K : Type) front force (m1 : list (K * list A)) k m2 a x b,
+  (front = true -> a = []) ->
+  exists ds, decide_top_keyed front force (m1 ++ (k, a ++ x :: b) :: m2) ds
+             = Ok ([(k, x)], m1 ++ (k, a ++ b) :: m2, [], true).
+Proof. intros A K. exact (@top_keyed_complete A K). Qed.
+Print Assumptions C37_top_keyed_every_item.
+
 (* non-vacuity *)
 Example C37_ex_subset :
   decide_noorder false [10; 20; 30] [0; 0; 0; 1] = Ok ([10; 30], [20], [], true)
